@@ -166,6 +166,8 @@ pub fn check_output(
 /// the public API for a first output in the lowest / highest 2^-20 of the range.
 pub struct ExtremeSeeds {
     pub zero: Option<u64>,
+    /// first 64-bit output is u64::MAX (a known solution of the wyrand step, verified at run time)
+    pub max: Option<u64>,
     pub low: Vec<u64>,
     pub high: Vec<u64>,
 }
@@ -177,6 +179,7 @@ pub fn extreme_seeds() -> &'static ExtremeSeeds {
         let z = 0u64.wrapping_sub(WY_CONST_0);
         let mut r = fastrand::Rng::with_seed(z);
         let zero = (r.u64(..) == 0).then_some(z);
+        let max = [0xd2ca_7233_5593_875a_u64].into_iter().find(|s| fastrand::Rng::with_seed(*s).u64(..) == u64::MAX);
         let mut low = vec![];
         let mut high = vec![];
         let mut s = 1u64;
@@ -190,7 +193,7 @@ pub fn extreme_seeds() -> &'static ExtremeSeeds {
             }
             s += 1;
         }
-        ExtremeSeeds { zero, low, high }
+        ExtremeSeeds { zero, max, low, high }
     })
 }
 
@@ -209,6 +212,10 @@ pub fn draw_fastrand_seed(rng: &mut Rng, stats: &mut Stats) -> u64 {
         1 if !e.low.is_empty() => {
             stats.inc("fired:rng_first_draw_lowest");
             *rng.pick(&e.low)
+        }
+        3 if e.max.is_some() => {
+            stats.inc("fired:rng_first_draw_max");
+            e.max.unwrap_or(0)
         }
         2 if !e.high.is_empty() => {
             stats.inc("fired:rng_first_draw_highest");
